@@ -97,10 +97,10 @@ PROPS = {
     },
     "C18": {
         "parts": [
-            {"id": "C18N", "features": ("net",), "runs": {"quick": 300_000, "thorough": 9_000_000},
+            {"id": "C18N", "features": ("net",), "runs": {"quick": 200_000, "thorough": 6_000_000},
              "probes": ["probe.ended_by_stop_all_lines_applied", "probe.prefix_consistency_checked", "probe.guest_ran_to_exit", "event.half_close",
                         "event.stream_ended_inside_a_line", "event.short_reads_and_writes", "event.chunking_whole_script", "event.chunking_tiny", "event.chunking_random"]},
-            {"id": "C18", "runs": {"quick": 800_000, "thorough": 24_000_000},
+            {"id": "C18", "runs": {"quick": 500_000, "thorough": 15_000_000},
              "probes": ["event.batches_with_several_lines", "event.batches_delivered_while_paused", "probe.malformed_line_followed_by_lines_in_same_batch",
                         "probe.quiet_point_checks", "probe.ended_by_stop", "probe.ended_paused", "probe.ran_to_exit", "probe.wait_start"]},
         ],
